@@ -56,9 +56,82 @@ func inModule(pkg *types.Package) bool {
 }
 
 // FuncKey returns the short stable key of a function.
+// forwardName: an unexported function that holds the body of an exported one (`func (s *T) M(a) R { return m(s, a) }`)
+// goes by the exported function's name, and the exported name resolves to that body: moving a method's body into a
+// function that takes the receiver as its first argument (or into an unexported typed variant) is not a change.
+var forwardName = map[*ssa.Function]string{}
+
+// forwardTarget: w does nothing but call g with its own parameters in order and return g's results.
+func forwardTarget(w *ssa.Function) *ssa.Function {
+	if w == nil || len(w.Blocks) != 1 || w.Parent() != nil || w.Synthetic != "" {
+		return nil
+	}
+	var call *ssa.Call
+	var ret *ssa.Return
+	for _, ins := range w.Blocks[0].Instrs {
+		switch x := ins.(type) {
+		case *ssa.Call:
+			if call != nil {
+				return nil
+			}
+			call = x
+		case *ssa.Return:
+			ret = x
+		case *ssa.Extract, *ssa.DebugRef, *ssa.MakeInterface, *ssa.ChangeType:
+		default:
+			return nil
+		}
+	}
+	if call == nil || ret == nil || call.Call.IsInvoke() {
+		return nil
+	}
+	g := call.Call.StaticCallee()
+	if g == nil || g == w || g.Blocks == nil || g.Pkg != w.Pkg || g.Parent() != nil || g.Object() == nil || g.Object().Exported() {
+		return nil
+	}
+	if len(call.Call.Args) != len(w.Params) {
+		return nil
+	}
+	for i, a := range call.Call.Args {
+		if a != ssa.Value(w.Params[i]) {
+			return nil
+		}
+	}
+	// results handed on unchanged
+	strip := func(v ssa.Value) ssa.Value {
+		for {
+			switch x := v.(type) {
+			case *ssa.MakeInterface:
+				v = x.X
+				continue
+			case *ssa.ChangeType:
+				v = x.X
+				continue
+			}
+			return v
+		}
+	}
+	if len(ret.Results) == 1 {
+		if strip(ret.Results[0]) != ssa.Value(call) {
+			return nil
+		}
+	} else {
+		for i, r := range ret.Results {
+			ex, ok := r.(*ssa.Extract)
+			if !ok || ex.Tuple != ssa.Value(call) || ex.Index != i {
+				return nil
+			}
+		}
+	}
+	return g
+}
+
 func FuncKey(f *ssa.Function) string {
 	if f == nil {
 		return "<nil>"
+	}
+	if k, ok := forwardName[f]; ok {
+		return k
 	}
 	if f.Parent() != nil {
 		// anonymous function: parent key + $n
@@ -175,6 +248,26 @@ func Load(dir, goos, goarch string) (*Program, error) {
 			continue
 		}
 		P.Funcs[k] = f
+	}
+	// exported functions that only forward to an unexported body: the name denotes the body
+	nFwd := map[*ssa.Function]int{}
+	fwd := map[*ssa.Function]*ssa.Function{}
+	for _, w := range P.AllFuncs {
+		if w.Object() == nil || !w.Object().Exported() {
+			continue
+		}
+		if g := forwardTarget(w); g != nil {
+			fwd[w] = g
+			nFwd[g]++
+		}
+	}
+	for w, g := range fwd {
+		if nFwd[g] != 1 {
+			continue
+		}
+		k := FuncKey(w)
+		forwardName[g] = k
+		P.Funcs[k] = g
 	}
 	sort.Slice(P.AllFuncs, func(i, j int) bool { return FuncKey(P.AllFuncs[i]) < FuncKey(P.AllFuncs[j]) })
 
